@@ -12,6 +12,8 @@ mod vm;
 mod vo;
 #[path = "../validate_abs.rs"]
 mod va;
+#[path = "../validate_certs.rs"]
+mod vcert;
 use vc::*;
 use verif_harness::*;
 use vfx::*;
@@ -64,7 +66,7 @@ fn main() {
             let o = observe(&tx, metx, utxos, env, &s.cs, s.counts);
             let term = if args.oracle_only { String::new() } else {
                 let bw: Vec<pallas_primitives::byron::Twit> = if let AnyTx::Byron(p) = &tx { p.witness.iter().cloned().collect() } else { vec![] };
-                format!("({},{},{},{},{},{})", coq_bool(profile != "release"), va::tx_term(&tx, metx, utxos, env, &o), va::utxo_term(utxos, &bw), va::env_term(env),
+                format!("({},{},{},{},{},{})", coq_bool(profile != "release"), va::tx_term(&tx, metx, utxos, env, &o, &s.cs, s.counts), va::utxo_term(utxos, &bw), va::env_term(env),
                         o.e2e.coq(), coq_list(&o.checks, |c| c.1.coq()))
             };
             (fam_name(&tx), o, term)
